@@ -2,6 +2,7 @@ package main
 
 import (
 	"fmt"
+	"go/ast"
 	"go/token"
 	"go/types"
 	"os"
@@ -18,27 +19,27 @@ const repoRoot = "/repo"
 const modPath = "github.com/openGemini/openGemini"
 
 type World struct {
-	fset        *token.FileSet
-	pkgs        []*packages.Package
-	prog        *ssa.Program
-	spkgs       map[string]*ssa.Package
-	specs       map[string]*FuncSpec // pkgpath::relname
-	extern      map[string]*FuncSpec // full ssa name
-	ifaceSpecs  map[string]*FuncSpec // pkgpath::Iface.Method
-	specFuncs   map[string]*SpecFunc
-	specFuncPkg map[string]*types.Package
-	lemmas      []*Lemma
-	axioms      []axiomIn
-	specImports map[string]map[string]string // contract package path -> alias -> import path
-	usedLib     map[string]bool
-	refuted     map[string]bool
-	lemmaPkg    *types.Package
-	allSpecs    []*FuncSpec
-	typesPkgs   map[string]*types.Package
-	pureLib     map[string]bool
-	specFiles   []string
+	fset         *token.FileSet
+	pkgs         []*packages.Package
+	prog         *ssa.Program
+	spkgs        map[string]*ssa.Package
+	specs        map[string]*FuncSpec // pkgpath::relname
+	extern       map[string]*FuncSpec // full ssa name
+	ifaceSpecs   map[string]*FuncSpec // pkgpath::Iface.Method
+	specFuncs    map[string]*SpecFunc
+	specFuncPkg  map[string]*types.Package
+	lemmas       []*Lemma
+	axioms       []axiomIn
+	specImports  map[string]map[string]string // contract package path -> alias -> import path
+	usedLib      map[string]bool
+	refuted      map[string]bool
+	lemmaPkg     *types.Package
+	allSpecs     []*FuncSpec
+	typesPkgs    map[string]*types.Package
+	pureLib      map[string]bool
+	specFiles    []string
 	globalGhosts map[string]string // name -> type
-	kfExcept    map[string]Expr
+	kfExcept     map[string]Expr
 }
 
 func (w *World) pos(p token.Pos) string {
@@ -365,7 +366,11 @@ func (w *World) findFunction(fs *FuncSpec) *ssa.Function {
 		}
 		// "init@file.go": the init function declared in that file (go/ssa numbers them init#1.. in file order,
 		// which would change when an unrelated init is added)
-		if strings.HasPrefix(want, "init@") && strings.HasPrefix(f.Name(), "init#") && f.Pos().IsValid() {
+		// "init@var:NAME": the package initializer, restricted to the initializer expression of package variable NAME
+		if strings.HasPrefix(want, "init@var:") && f.Name() == "init" && f.Synthetic != "" {
+			found = f
+		}
+		if strings.HasPrefix(want, "init@") && !strings.HasPrefix(want, "init@var:") && strings.HasPrefix(f.Name(), "init#") && f.Pos().IsValid() {
 			if filepath.Base(w.fset.Position(f.Pos()).Filename) == strings.TrimPrefix(want, "init@") {
 				found = f
 			}
@@ -418,4 +423,14 @@ func (w *World) lookupSpecFunc(name string, ctx *types.Package) (*SpecFunc, *typ
 		return found, fp
 	}
 	return nil, nil
+}
+
+// pkgSyntax returns the parsed files of a loaded package.
+func (w *World) pkgSyntax(path string) []*ast.File {
+	for _, p := range w.pkgs {
+		if p.PkgPath == path {
+			return p.Syntax
+		}
+	}
+	return nil
 }
